@@ -185,16 +185,16 @@ class Session:
         d.make_mesh(**kw)
 
     def mesh_coarser_05(self):
-        self._mesh_other(max_edge_length=1.05, smooth=0)
+        self._mesh_other(max_edge_length=0.525, smooth=0)
 
     def mesh_coarser_12(self):
-        self._mesh_other(max_edge_length=1.125, smooth=0)
+        self._mesh_other(max_edge_length=0.6, smooth=0)
 
     def mesh_coarser_25(self):
-        self._mesh_other(max_edge_length=1.25, smooth=0)
+        self._mesh_other(max_edge_length=0.625, smooth=0)
 
     def mesh_finer(self):
-        self._mesh_other(max_edge_length=0.8, smooth=0)
+        self._mesh_other(max_edge_length=0.45, smooth=0)
 
     def mesh_minpoints(self):
         self._mesh_other(max_edge_length=1.3, min_points=150, smooth=0)
@@ -366,6 +366,10 @@ class Session:
         # the reference device built again from its definition, after the history: meshing the same geometry with the same settings
         # gives the same mesh whatever was meshed before in this process
         h = _h()
+        d5 = self.zoo.device("G2", memo=False, lam=0.8, mesh=False)
+        d5.make_mesh(max_edge_length=0.5, smooth=0)  # first: a fine target is the most sensitive to where the refinement starts
+        _upd(h, "half.sites", d5.mesh.sites)
+        _upd(h, "half.elements", d5.mesh.elements)
         for kw in (dict(), dict(density="fine"), dict(smooth=2)):
             d3 = self.zoo.device("G2", memo=False, lam=0.8, **kw)
             for nm in ("sites", "elements", "boundary_indices", "areas"):
